@@ -1,3 +1,4 @@
+import SdxProofs.SortLemmas
 import SdxProofs.FlattenLemmas
 import SdxProofs.CounterLemmas
 import Mathlib.Tactic.Linarith
@@ -262,5 +263,35 @@ theorem C04_heaviest_invariance (E : Env α) (ap : AnonParams α) (bs : UInt64) 
   apply flattenCore_heaviest_invariant E ap bs hd hd' tl _ _ hlen (by omega) (by omega) _ hpids hge hge'
   have : ((hd ++ tl).length : Int) = (hd ++ tl).length := rfl
   omega
+
+/-- T04.c (unsorted form)  Take any per-entity contribution table `l` (distinct ids, every row attributed). Let the
+`k ≤ outlier.lower` entities that head the sorted table contribute any number of additional rows. Then the released
+flattened count, the noise scale and the noise are exactly what they were: the extra rows of the heaviest entities
+are flattened away completely. (No hypothesis about the shape after re-sorting: `raise_heaviest_shape` proves it.) -/
+theorem C04_heaviest_invariance_raise (E : Env α) (ap : AnonParams α) (bs : UInt64) (oi ti : FlatInterval)
+    (l : List (UInt64 × Nat)) (hnd : (l.map (·.1)).Nodup) (k : Nat) (f : UInt64 → Nat)
+    (hk : (k : Int) ≤ oi.lower) (ho : oi.lower ≤ oi.upper) (ht1 : 1 ≤ ti.lower) (ht : ti.lower ≤ ti.upper)
+    (hfit : oi.upper + ti.upper ≤ (l.length : Int)) :
+    let l' := l.map (raiseContrib (((sortDesc l).take k).map (·.1)) f)
+    (flattenSorted E ap bs oi ti (sortDesc l) 0).flattenedCount = (flattenSorted E ap bs oi ti (sortDesc l') 0).flattenedCount ∧
+    (flattenSorted E ap bs oi ti (sortDesc l) 0).noiseSd = (flattenSorted E ap bs oi ti (sortDesc l') 0).noiseSd ∧
+    (flattenSorted E ap bs oi ti (sortDesc l) 0).noise = (flattenSorted E ap bs oi ti (sortDesc l') 0).noise := by
+  intro l'
+  have hsplit : sortDesc l = (sortDesc l).take k ++ (sortDesc l).drop k := (List.take_append_drop k _).symm
+  obtain ⟨hd', hs', hlen', hpids, hge'⟩ := raise_heaviest_shape l hnd _ _ hsplit f
+  have hlenl : (sortDesc l).length = l.length := (sortDesc_perm l).length_eq
+  have hklen : ((sortDesc l).take k).length ≤ k := by simp
+  have hsorted := sortDesc_sorted l
+  rw [hsplit] at hsorted
+  have hge : ∀ a ∈ (sortDesc l).take k, ∀ b ∈ (sortDesc l).drop k, b.2 ≤ a.2 :=
+    fun a ha b hb => (List.pairwise_append.mp hsorted).2.2 a ha b hb
+  have := C04_heaviest_invariance E ap bs oi ti ((sortDesc l).take k) hd' ((sortDesc l).drop k) hlen'.symm
+    (by have : (((sortDesc l).take k).length : Int) ≤ k := by exact_mod_cast hklen
+        omega) ho ht1 ht
+    (by rw [← hsplit, hlenl]; exact hfit) hpids hge hge'
+  rw [← hsplit] at this
+  show _ = (flattenSorted E ap bs oi ti (sortDesc l') 0).flattenedCount ∧ _
+  rw [show sortDesc l' = hd' ++ (sortDesc l).drop k from hs']
+  exact this
 
 end
